@@ -14,7 +14,7 @@ Notation instR := (@inst VR).
 Ltac interp :=
   cbv beta iota zeta delta [exec_body exec_sts exec_st eval_ex b_st b_ret c_oop c_ip lookup bindref set_last bind_sc eval_scal
        sel_space ref_id elem_id lift_opt nth_error i_kids i_pars i_vecs i_owns i_dom i_ran
-       e_x e_out e_tmp e_sc e_last assoc Nat.eqb bind ret fail].
+       e_x e_out e_tmp e_sc e_last assoc Nat.eqb bind ret fail opt2].
 
 Lemma upd_app_last (s : storeR) c c' : upd (s ++ [c]) (length s) c' = s ++ [c'].
 Proof. induction s as [|a s IH]; cbn; [reflexivity|]. rewrite IH. reflexivity. Qed.
@@ -1009,5 +1009,258 @@ Proof.
   destruct (Hf s1 t _ W1 G1 Et1) as (s2 & Hc & E2 & W2).
   rw_call Hc.
   exists s2. splits; [reflexivity | eapply ext_trans_same; eassumption | exact W2].
+Qed.
+
+(* ================= translated proximal factories (KIp: `_call(self, x, out)`) ================= *)
+Notation qr c := (@of_Q R _ c).
+Ltac scalnorm := rewrite ?of_Q_some; cbn [nadd nmul nsub nopp Num_opt olift2 olift1 Num_R none_ nzero].
+
+(* proximal_l2_squared(space, lam)(sigma), scalar sigma, g = None:  out = x / (1 + 2 sigma lam) *)
+Lemma prox_l2sq_ip sp ro sig lam :
+  (qr (1 # 1) + qr (2 # 1) * sig * lam <> 0)%R ->
+  raw_ip_vec (fun x o => exec_body junk (inst_leaf sp sp [Some sig; Some lam] []) (c_ip cls_ProximalL2Squared) x (Some o))
+    sp sp ro [] (fun d => rscal (qr (1 # 1) / (qr (1 # 1) + qr (2 # 1) * sig * lam)) d).
+Proof.
+  intros Hnz s x y dx dy W G Ex Ey Nxy Ny _. unfold cls_ProximalL2Squared, inst_leaf. interp.
+  scalnorm. rewrite odiv_some by exact Hnz.
+  rewrite (do_lincomb1_clean _ _ _ _ _ _ _ W Ex Ey).
+  eexists _, _. split; [reflexivity|]. split; [left; reflexivity|].
+  eapply ip_finish; [apply ext_refl | exact W | exact Ey |]. rewrite rscal_length. eapply wf_len; eauto.
+Qed.
+(* ... with g:  out = (x + 2 sigma lam g) / (1 + 2 sigma lam) *)
+Lemma prox_l2sq_g_ip sp ro sig lam v dv :
+  (qr (1 # 1) + qr (2 # 1) * sig * lam <> 0)%R -> In (v, sp, dv) ro ->
+  raw_ip_vec (fun x o => exec_body junk (inst_leaf sp sp [Some sig; Some lam] [v]) (c_ip cls_ProximalL2Squared_g) x (Some o))
+    sp sp ro [] (fun d => rlin (qr (1 # 1) / (qr (1 # 1) + qr (2 # 1) * sig * lam))
+                               (qr (2 # 1) * sig * lam / (qr (1 # 1) + qr (2 # 1) * sig * lam)) d dv).
+Proof.
+  intros Hnz Iv s x y dx dy W G Ex Ey Nxy Ny _. unfold cls_ProximalL2Squared_g, inst_leaf. interp.
+  scalnorm. rewrite !odiv_some by exact Hnz.
+  pose proof (G _ _ _ Iv) as Ev.
+  rewrite (do_lincomb_clean _ _ _ _ _ _ _ _ _ _ W Ex Ev Ey).
+  eexists _, _. split; [reflexivity|]. split; [left; reflexivity|].
+  eapply ip_finish; [apply ext_refl | exact W | exact Ey |].
+  rewrite rlin_length; [eapply wf_len; eauto|]. rewrite (wf_len _ _ _ _ W Ex), (wf_len _ _ _ _ W Ev). reflexivity.
+Qed.
+(* proximal_convex_conj_l2_squared, scalar sigma:  out = x / (1 + sigma / (2 lam)) *)
+Lemma prox_cc_l2sq_ip sp ro sig lam :
+  lam <> 0%R -> (qr (1 # 1) + qr (1 # 2) * sig / lam <> 0)%R ->
+  raw_ip_vec (fun x o => exec_body junk (inst_leaf sp sp [Some sig; Some lam] []) (c_ip cls_ProximalConvexConjL2Squared) x (Some o))
+    sp sp ro [] (fun d => rscal (qr (1 # 1) / (qr (1 # 1) + qr (1 # 2) * sig / lam)) d).
+Proof.
+  intros Hl Hnz s x y dx dy W G Ex Ey Nxy Ny _. unfold cls_ProximalConvexConjL2Squared, inst_leaf. interp.
+  scalnorm. rewrite (odiv_some _ lam) by exact Hl. scalnorm. rewrite odiv_some by exact Hnz.
+  rewrite (do_lincomb1_clean _ _ _ _ _ _ _ W Ex Ey).
+  eexists _, _. split; [reflexivity|]. split; [left; reflexivity|].
+  eapply ip_finish; [apply ext_refl | exact W | exact Ey |]. rewrite rscal_length. eapply wf_len; eauto.
+Qed.
+Lemma prox_cc_l2sq_g_ip sp ro sig lam v dv :
+  lam <> 0%R -> (qr (1 # 1) + qr (1 # 2) * sig / lam <> 0)%R -> In (v, sp, dv) ro ->
+  raw_ip_vec (fun x o => exec_body junk (inst_leaf sp sp [Some sig; Some lam] [v]) (c_ip cls_ProximalConvexConjL2Squared_g) x (Some o))
+    sp sp ro [] (fun d => rlin (qr (1 # 1) / (qr (1 # 1) + qr (1 # 2) * sig / lam))
+                               (- sig / (qr (1 # 1) + qr (1 # 2) * sig / lam)) d dv).
+Proof.
+  intros Hl Hnz Iv s x y dx dy W G Ex Ey Nxy Ny _. unfold cls_ProximalConvexConjL2Squared_g, inst_leaf. interp.
+  scalnorm. rewrite !(odiv_some _ lam) by exact Hl. scalnorm. rewrite !odiv_some by exact Hnz.
+  pose proof (G _ _ _ Iv) as Ev.
+  rewrite (do_lincomb_clean _ _ _ _ _ _ _ _ _ _ W Ex Ev Ey).
+  eexists _, _. split; [reflexivity|]. split; [left; reflexivity|].
+  eapply ip_finish; [apply ext_refl | exact W | exact Ey |].
+  rewrite rlin_length; [eapply wf_len; eauto|]. rewrite (wf_len _ _ _ _ W Ex), (wf_len _ _ _ _ W Ev). reflexivity.
+Qed.
+
+(* proximal_box_constraint(space, lower, upper): out = min(max(x, lower), upper) and its three degenerate forms *)
+Lemma box_both_ip sp ro lo hi :
+  raw_ip_vec (fun x o => exec_body junk (inst_leaf sp sp [Some lo; Some hi] []) (c_ip cls_ProxBox_both) x (Some o))
+    sp sp ro [] (fun d => map (fun v => Rmin v hi) (map (fun v => Rmax v lo) d)).
+Proof.
+  intros s x y dx dy W G Ex Ey Nxy Ny _. unfold cls_ProxBox_both, inst_leaf. interp.
+  rewrite (do_map_clean _ (fun v => Rmax v lo) _ _ _ _ _ _ (fun u => nmax_some u lo) Ex Ey).
+  set (s1 := upd s y (sp, cl (map (fun v => Rmax v lo) dx))).
+  assert (Ly : (y < length s)%nat) by (eapply rd_lt; exact Ey).
+  assert (Ey1 : rd s1 y = Some (sp, cl (map (fun v => Rmax v lo) dx))) by (apply rd_upd_same; exact Ly).
+  rewrite (do_map_clean _ (fun v => Rmin v hi) _ _ _ _ _ _ (fun u => nmin_some u hi) Ey1 Ey1).
+  unfold s1. eexists _, _. split; [reflexivity|]. split; [left; reflexivity|].
+  assert (E1 : ext s s1 [y]) by (eapply ext_upd; exact Ey).
+  assert (W1 : wf_store s1) by (apply wf_upd; [exact W | rewrite cl_length, map_length; eapply wf_len; eauto]).
+  eapply ip_finish; [exact E1 | exact W1 | exact Ey1 |]. rewrite !map_length. exact (wf_len _ _ _ _ W Ex).
+Qed.
+Lemma box_lower_ip sp ro lo hi :
+  raw_ip_vec (fun x o => exec_body junk (inst_leaf sp sp [Some lo; hi] []) (c_ip cls_ProxBox_lower) x (Some o))
+    sp sp ro [] (fun d => map (fun v => Rmax v lo) d).
+Proof.
+  intros s x y dx dy W G Ex Ey Nxy Ny _. unfold cls_ProxBox_lower, inst_leaf. interp.
+  rewrite (do_map_clean _ (fun v => Rmax v lo) _ _ _ _ _ _ (fun u => nmax_some u lo) Ex Ey).
+  eexists _, _. split; [reflexivity|]. split; [left; reflexivity|].
+  eapply ip_finish; [apply ext_refl | exact W | exact Ey |]. rewrite map_length. eapply wf_len; eauto.
+Qed.
+Lemma box_upper_ip sp ro lo hi :
+  raw_ip_vec (fun x o => exec_body junk (inst_leaf sp sp [lo; Some hi] []) (c_ip cls_ProxBox_upper) x (Some o))
+    sp sp ro [] (fun d => map (fun v => Rmin v hi) d).
+Proof.
+  intros s x y dx dy W G Ex Ey Nxy Ny _. unfold cls_ProxBox_upper, inst_leaf. interp.
+  rewrite (do_map_clean _ (fun v => Rmin v hi) _ _ _ _ _ _ (fun u => nmin_some u hi) Ex Ey).
+  eexists _, _. split; [reflexivity|]. split; [left; reflexivity|].
+  eapply ip_finish; [apply ext_refl | exact W | exact Ey |]. rewrite map_length. eapply wf_len; eauto.
+Qed.
+Lemma box_none_ip sp ro pars :
+  raw_ip_vec (fun x o => exec_body junk (inst_leaf sp sp pars []) (c_ip cls_ProxBox_none) x (Some o))
+    sp sp ro [] (fun d => d).
+Proof.
+  intros s x y dx dy W G Ex Ey Nxy Ny _. unfold cls_ProxBox_none, inst_leaf. interp.
+  rewrite (do_assign_clean _ _ _ _ _ _ W Ex Ey).
+  eexists _, _. split; [reflexivity|]. split; [left; reflexivity|].
+  eapply ip_finish; [apply ext_refl | exact W | exact Ey | eapply wf_len; eauto].
+Qed.
+
+Lemma new_abs_clean i (s : storeR) sp d : rd s i = Some (sp, cl d) ->
+  new_abs junk i s = Ok (VElem (length s)) (s ++ [(sp, cl (map Rabs d))]).
+Proof.
+  intros E. unfold new_abs.
+  rewrite (bind_Ok _ _ _ _ _ (space_of_eq _ _ _ _ E)).
+  rewrite (bind_Ok _ _ _ _ _ (alloc_empty_eq junk sp s)).
+  erewrite bind_Ok.
+  2:{ eapply (do_map_clean _ Rabs); [reflexivity | | apply rd_app_new].
+      rewrite rd_app_old; [exact E | eapply rd_lt; exact E]. }
+  cbn [ret]. rewrite upd_app_last. reflexivity.
+Qed.
+Lemma new_sub_clean i j (s : storeR) sp di dj : wf_store s ->
+  rd s i = Some (sp, cl di) -> rd s j = Some (sp, cl dj) ->
+  new_sub junk i j s = Ok (VElem (length s)) (s ++ [(sp, cl (rlin 1 (-1) di dj))]).
+Proof.
+  intros W Ei Ej. unfold new_sub.
+  rewrite (bind_Ok _ _ _ _ _ (space_of_eq _ _ _ _ Ei)).
+  rewrite (bind_Ok _ _ _ _ _ (alloc_empty_eq junk sp s)).
+  change (@nopp VR _ (@none_ VR _)) with (Some (- 1)%R). change (@none_ VR _) with (Some 1%R).
+  erewrite bind_Ok.
+  2:{ eapply do_lincomb_clean.
+      - apply wf_alloc; [exact W | apply junkbuf_length].
+      - rewrite rd_app_old; [exact Ei | eapply rd_lt; exact Ei].
+      - rewrite rd_app_old; [exact Ej | eapply rd_lt; exact Ej].
+      - apply rd_app_new. }
+  cbn [ret]. rewrite upd_app_last. reflexivity.
+Qed.
+Lemma rmax1_nz (l : list R) : Forall (fun v => v <> 0%R) (map (fun v => Rmax v (qr (1 # 1))) l).
+Proof.
+  apply Forall_forall. intros v I. apply in_map_iff in I as (u & <- & _).
+  assert (H1 : (qr (1 # 1) = 1)%R) by (unfold of_Q; cbn; numR; field).
+  rewrite H1. pose proof (Rmax_r u 1). lra.
+Qed.
+
+(* the soft-thresholding core shared by proximal_l1 with and without g:
+   diff (object d, clean dd) is given; denom is a NEW object; out = x - diff / max(|diff| / (sigma lam), 1) *)
+Definition soft (sl : R) (dd : list R) : list R :=
+  rdiv dd (map (fun v => Rmax v (qr (1 # 1))) (rscal (1 / sl) (map Rabs dd))).
+
+Definition soft_tail : list st :=
+  [TLet (RTmp 1) (XAbs (XRef (RTmp 0))); TIDivS (RTmp 1) (SMul (SPar 0) (SPar 1));
+   TUMaxS (RTmp 1) (SLit (1 # 1)) (RTmp 1); TDivide (RTmp 0) (RTmp 1) ROut;
+   TLincomb ROut (SLit (1 # 1)) RX (Some (SLit ((-1) # 1), ROut))].
+Definition env_diff (x y d : nat) : @env VR :=
+  {| e_x := VElem x; e_out := Some (VElem y); e_tmp := [(0%nat, VElem d)]; e_sc := []; e_last := VNone |}.
+
+(* the tail of ProximalL1._call once `diff` is bound to the object d *)
+Lemma soft_tail_ok sp vecs sig lam (s : storeR) x y d dx dd dy :
+  (sig * lam <> 0)%R -> wf_store s ->
+  rd s x = Some (sp, cl dx) -> rd s d = Some (sp, cl dd) -> rd s y = Some (sp, dy) -> x <> y -> d <> y ->
+  exists e' s', exec_sts junk (inst_leaf sp sp [Some sig; Some lam] vecs) (env_diff x y d) soft_tail s = Ok e' s' /\
+    rd s' y = Some (sp, cl (rlin (qr (1 # 1)) (qr ((-1) # 1)) dx (soft (sig * lam) dd))) /\
+    ext s s' [y] /\ wf_store s'.
+Proof.
+  intros Hnz W Ex Ed Ey Nxy Ndy. unfold soft_tail, env_diff, inst_leaf. interp.
+  assert (Lx : (x < length s)%nat) by (eapply rd_lt; exact Ex).
+  assert (Ld : (d < length s)%nat) by (eapply rd_lt; exact Ed).
+  assert (Ly : (y < length s)%nat) by (eapply rd_lt; exact Ey).
+  assert (Ldx : length dx = fst sp) by (eapply wf_len; eauto).
+  assert (Ldd : length dd = fst sp) by (eapply wf_len; eauto).
+  rewrite (new_abs_clean _ _ _ _ Ed).
+  set (t := length s). set (s1 := s ++ [(sp, cl (map Rabs dd))]).
+  assert (W1 : wf_store s1) by (apply wf_alloc; [exact W | rewrite cl_length, map_length; exact Ldd]).
+  assert (Et1 : rd s1 t = Some (sp, cl (map Rabs dd))) by apply rd_app_new.
+  scalnorm. rewrite odiv_some by exact Hnz.
+  rewrite (do_iscal_clean _ _ _ _ _ W1 Et1).
+  set (s2 := upd s1 t (sp, cl (rscal (1 / (sig * lam)) (map Rabs dd)))).
+  assert (Lt1 : (t < length s1)%nat) by (eapply rd_lt; exact Et1).
+  assert (Et2 : rd s2 t = Some (sp, cl (rscal (1 / (sig * lam)) (map Rabs dd)))) by (apply rd_upd_same; exact Lt1).
+  rewrite (do_map_clean _ (fun v => Rmax v (qr (1 # 1))) _ _ _ _ _ _ (fun u => nmax_some u (qr (1 # 1))) Et2 Et2).
+  set (den := map (fun v => Rmax v (qr (1 # 1))) (rscal (1 / (sig * lam)) (map Rabs dd))).
+  set (s3 := upd s2 t (sp, cl den)).
+  assert (Lt2 : (t < length s2)%nat) by (unfold s2; rewrite upd_length; exact Lt1).
+  assert (Et3 : rd s3 t = Some (sp, cl den)) by (apply rd_upd_same; exact Lt2).
+  assert (Old : forall i c, (i < length s)%nat -> rd s i = Some c -> rd s3 i = Some c).
+  { intros i c Li E. unfold s3, s2. rewrite !rd_upd_other by (unfold t; lia). unfold s1. rewrite rd_app_old; assumption. }
+  pose proof (Old _ _ Lx Ex) as Ex3. pose proof (Old _ _ Ld Ed) as Ed3. pose proof (Old _ _ Ly Ey) as Ey3.
+  rewrite (do_divide_clean _ _ _ _ _ _ _ _ (rmax1_nz _) Ed3 Et3 Ey3).
+  fold (soft (sig * lam) dd).
+  set (s4 := upd s3 y (sp, cl (soft (sig * lam) dd))).
+  assert (Lden : length den = fst sp) by (unfold den; rewrite map_length, rscal_length, map_length; exact Ldd).
+  assert (Lsoft : length (soft (sig * lam) dd) = fst sp).
+  { unfold soft. rewrite rdiv_length; [exact Ldd|]. fold den. congruence. }
+  assert (W3 : wf_store s3).
+  { unfold s3, s2. apply wf_upd; [apply wf_upd; [exact W1|] |].
+    - rewrite cl_length, rscal_length, map_length; exact Ldd.
+    - rewrite cl_length; exact Lden. }
+  assert (W4 : wf_store s4) by (apply wf_upd; [exact W3 | rewrite cl_length; exact Lsoft]).
+  assert (Ly3 : (y < length s3)%nat) by (eapply rd_lt; exact Ey3).
+  assert (Ey4 : rd s4 y = Some (sp, cl (soft (sig * lam) dd))) by (apply rd_upd_same; exact Ly3).
+  assert (Ex4 : rd s4 x = Some (sp, cl dx)) by (unfold s4; rewrite rd_upd_other by congruence; exact Ex3).
+  rewrite (do_lincomb_clean _ _ _ _ _ _ _ _ _ _ W4 Ex4 Ey4 Ey4).
+  eexists _, _. split; [reflexivity|].
+  assert (E04 : ext s s4 [y]).
+  { eapply ext_trans_same; [| eapply ext_upd; exact Ey3].
+    eapply ext_trans_fresh; [| eapply ext_upd; exact Et2 | unfold t; lia].
+    eapply ext_trans_fresh; [apply ext_nil_any; apply ext_alloc | eapply ext_upd; exact Et1 | unfold t; lia]. }
+  eapply (ip_finish s s4 y []); [exact E04 | exact W4 | exact Ey4 |].
+  rewrite rlin_length; [exact Ldx | congruence].
+Qed.
+
+Lemma exec_sts_cons (I : instR) (e : @env VR) t l :
+  exec_sts junk I e (t :: l) = bind (exec_st junk I e t) (fun e' => exec_sts junk I e' l).
+Proof. reflexivity. Qed.
+
+(* proximal_l1(space, lam)(sigma), g = None:  out = x - x / max(|x| / (sigma lam), 1) *)
+Lemma prox_l1_ip sp ro sig lam :
+  (sig * lam <> 0)%R ->
+  raw_ip_vec (fun x o => exec_body junk (inst_leaf sp sp [Some sig; Some lam] []) (c_ip cls_ProximalL1) x (Some o))
+    sp sp ro [] (fun d => rlin (qr (1 # 1)) (qr ((-1) # 1)) d (soft (sig * lam) d)).
+Proof.
+  intros Hnz s x y dx dy W G Ex Ey Nxy Ny _.
+  unfold cls_ProximalL1, exec_body. cbn [c_ip b_st b_ret]. fold soft_tail.
+  rewrite exec_sts_cons.
+  destruct (soft_tail_ok sp [] sig lam s x y x dx dx dy Hnz W Ex Ex Ey Nxy Nxy) as (e' & s' & He & Er & E1 & W1).
+  unfold bind at 2. cbn [exec_st eval_ex lookup lift_opt bindref e_x e_out e_tmp e_sc e_last ret]. unfold bind at 2.
+  cbn [ret]. fold (env_diff x y x). unfold bind. rewrite He. cbn [ret].
+  eexists _, _. split; [reflexivity|]. split; [left; reflexivity|]. splits; assumption.
+Qed.
+(* ... with g:  out = x - (x - g) / max(|x - g| / (sigma lam), 1) *)
+Lemma prox_l1_g_ip sp ro sig lam v dv :
+  (sig * lam <> 0)%R -> In (v, sp, dv) ro ->
+  raw_ip_vec (fun x o => exec_body junk (inst_leaf sp sp [Some sig; Some lam] [v]) (c_ip cls_ProximalL1_g) x (Some o))
+    sp sp ro [] (fun d => rlin (qr (1 # 1)) (qr ((-1) # 1)) d (soft (sig * lam) (rlin 1 (-1) d dv))).
+Proof.
+  intros Hnz Iv s x y dx dy W G Ex Ey Nxy Ny _.
+  pose proof (G _ _ _ Iv) as Ev.
+  unfold cls_ProximalL1_g, exec_body. cbn [c_ip b_st b_ret]. fold soft_tail.
+  rewrite exec_sts_cons.
+  assert (Lx : (x < length s)%nat) by (eapply rd_lt; exact Ex).
+  assert (Ly : (y < length s)%nat) by (eapply rd_lt; exact Ey).
+  set (d := length s). set (s0 := s ++ [(sp, cl (rlin 1 (-1) dx dv))]).
+  assert (Ldiff : length (rlin 1 (-1) dx dv) = fst sp).
+  { rewrite rlin_length; [eapply wf_len; eauto|]. rewrite (wf_len _ _ _ _ W Ex), (wf_len _ _ _ _ W Ev). reflexivity. }
+  assert (W0 : wf_store s0) by (apply wf_alloc; [exact W | rewrite cl_length; exact Ldiff]).
+  assert (Ex0 : rd s0 x = Some (sp, cl dx)) by (unfold s0; rewrite rd_app_old; assumption).
+  assert (Ey0 : rd s0 y = Some (sp, dy)) by (unfold s0; rewrite rd_app_old; assumption).
+  assert (Ed0 : rd s0 d = Some (sp, cl (rlin 1 (-1) dx dv))) by apply rd_app_new.
+  destruct (soft_tail_ok sp [v] sig lam s0 x y d dx _ dy Hnz W0 Ex0 Ed0 Ey0 Nxy ltac:(unfold d; lia))
+    as (e' & s' & He & Er & E1 & W1).
+  assert (H1 : exec_st junk (inst_leaf sp sp [Some sig; Some lam] [v])
+                 {| e_x := VElem x; e_out := Some (VElem y); e_tmp := []; e_sc := []; e_last := VNone |}
+                 (TLet (RTmp 0) (XSub (XRef RX) (XRef (RVec 0)))) s = Ok (env_diff x y d) s0).
+  { unfold inst_leaf. cbv beta iota zeta delta [exec_st eval_ex lookup lift_opt bindref e_x e_out e_tmp e_sc e_last
+                                                 i_vecs nth_error bind ret].
+    rewrite (new_sub_clean _ _ _ _ _ _ W Ex Ev). reflexivity. }
+  unfold bind at 1. rewrite (bind_Ok _ _ _ _ _ H1). rewrite He. cbn [ret].
+  eexists _, _. split; [reflexivity|]. split; [left; reflexivity|]. splits; auto.
+  eapply ext_trans; [apply ext_alloc | exact E1 | intros i [] | intros i _ I; exact I].
 Qed.
 End Classes.
